@@ -275,6 +275,8 @@ class Gen:
             out = alts[0]
         else:
             out = self.sum(alts, pu, K)
+        if not o.get("regular") and not o.get("normalized") and rng.random() < 0.15:
+            out = self.sum([out], K, K)      # two consecutive dense layers (collapsed by the optimiser)
         self.memo[key] = out
         return out
 
